@@ -271,6 +271,15 @@ func (exp *SplitExp) Keys() map[string]Exp {
 	return nil
 }
 
+// enabledValue returns the value which a conditionally disabled expression
+// has when it is not disabled.
+func enabledValue(exp Exp) Exp {
+	for d, ok := exp.(*DisabledExp); ok; d, ok = exp.(*DisabledExp) {
+		exp = d.Value
+	}
+	return exp
+}
+
 func (exp *SplitExp) CallMode() CallMode {
 	if exp.Type != nil {
 		t := exp.Type
@@ -306,6 +315,7 @@ func (exp *SplitExp) CallMode() CallMode {
 		}
 		var inner CallMode = -1
 		for _, ev := range e.Value {
+			ev = enabledValue(ev)
 			if is, ok := ev.(MapCallSource); !ok || is == nil {
 				if inner == -1 || inner == ModeSingleCall {
 					inner = ModeSingleCall
@@ -329,6 +339,7 @@ func (exp *SplitExp) CallMode() CallMode {
 		}
 		var inner CallMode = -1
 		for _, ev := range e.Value {
+			ev = enabledValue(ev)
 			if is, ok := ev.(MapCallSource); !ok || is == nil {
 				if inner == -1 || inner == ModeSingleCall {
 					inner = ModeSingleCall
